@@ -185,7 +185,17 @@ def check_ctor(case) -> Result:
             if tm[0] <= 0:
                 invalid.append('maximum_torque<=0')
             kw = {}
-            if 'i0' in case:
+            if ('i0' in case) != ('imax' in case):
+                # only one of the two optional currents is given: it is validated on its own
+                if 'i0' in case:
+                    if case['i0'][0] < 0:
+                        invalid.append('no_load_current<0')
+                    kw = dict(no_load_electric_current=_q('Current', *case['i0']))
+                else:
+                    if case['imax'][0] <= 0:
+                        invalid.append('maximum_current<=0')
+                    kw = dict(maximum_electric_current=_q('Current', *case['imax']))
+            elif 'i0' in case:
                 i0, im = case['i0'], case['imax']
                 if i0[0] < 0:
                     invalid.append('no_load_current<0')
@@ -277,11 +287,14 @@ def s_ctor(draw):
     which = draw(st.sampled_from(['DCMotor', 'DCMotor', 'pwm', 'SpurGear', 'HelicalGear', 'WormWheel', 'WormGear']))
     case = {'ctor': which}
     if which == 'DCMotor':
-        bad = draw(st.sampled_from(['w0', 'tmax', 'i0', 'imax', 'order', 'equal', 'none', 'none', 'several']))
+        bad = draw(st.sampled_from(['w0', 'tmax', 'i0', 'imax', 'order', 'equal', 'none', 'none', 'several', 'one-current']))
         # ('several': more than one parameter may be non-physical at once - two wrongs do not make a right)
         case['w0'] = draw(_sq('AngularSpeed', signed=bad in ('w0', 'several')))
         case['tmax'] = draw(_sq('Torque', signed=bad in ('tmax', 'several')))
-        if bad == 'equal':
+        if bad == 'one-current':
+            which_ = draw(st.sampled_from(['i0', 'imax', 'imax']))
+            case[which_] = draw(_sq('Current', -2, 2))
+        elif bad == 'equal':
             from fractions import Fraction as Fr
             ua = draw(st.integers(1, 9999)) * 10 ** draw(st.integers(0, 3))          # microampere
             u1, u2 = draw(st.permutations(['A', 'mA', 'uA']))[:2]
